@@ -212,7 +212,7 @@ func subLists() mon.Sub {
 		Name: "offer-lists", Required: true,
 		N: func(t string) int {
 			if t == "thorough" {
-				return 400000
+				return 2000000
 			}
 			return 20000
 		},
@@ -451,7 +451,7 @@ func subReset() mon.Sub {
 		Name: "reset-behaves-as-new", Required: true,
 		N: func(t string) int {
 			if t == "thorough" {
-				return 200000
+				return 1000000
 			}
 			return 10000
 		},
